@@ -296,8 +296,9 @@ pub mod arbitrary_precision {
     {
         let n = BigDecimal::deserialize(deserializer)?;
 
-        if n.scale.abs() > SERDE_SCALE_LIMIT && SERDE_SCALE_LIMIT > 0 {
-            let msg = format!("Calculated exponent '{}' out of bounds", -n.scale);
+        // checked_abs: i64::MIN has no absolute value and is certainly out of bounds
+        if n.scale.checked_abs().map_or(true, |s| s > SERDE_SCALE_LIMIT) && SERDE_SCALE_LIMIT > 0 {
+            let msg = format!("Calculated exponent '{}' out of bounds", -(n.scale as i128));
             Err(serde::de::Error::custom(msg))
         } else {
             Ok(n)
